@@ -148,7 +148,12 @@ def canon(o, local_map):
 
 
 def _eval(task):
-    st, variants = task
+    if len(task) > 2 and task[2]:
+        from sqllineage.config import SQLLineageConfig
+
+        with SQLLineageConfig(DEFAULT_SCHEMA=task[2]):  # the same comparison with a default schema configured
+            return _eval(task[:2])
+    st, variants = task[:2]
     base_sql = sqlgen.render(st)
     locs = sqlgen.local_names(st)
     ident = {n.lower(): f"~{i}" for i, n in enumerate(locs)}
@@ -272,13 +277,15 @@ def run(tier: str, opts: dict) -> int:
         vs = renamings(st, tier)
         if vs:
             tasks.append((st, vs))
+    tasks += [(st, vs, "ods") for st, vs in list(tasks)]
     res = pmap(_eval, tasks, chunk=2)
     regen = opts.get("regen_pins")
     n_var = n_skip = 0
     sigs = {}
     nontrivial = set()
     known = {e["id"]: set(e.get("signatures", [])) for e in rep.findings.entries.values()}
-    for (st, vs), r in zip(tasks, res):
+    for t, r in zip(tasks, res):
+        st, vs = t[:2]
         for v in r["variants"]:
             n_var += 1
             if v.get("skip"):
@@ -304,7 +311,7 @@ def run(tier: str, opts: dict) -> int:
             for a, b in sorted(items, key=lambda x: len(x[1]))[:3]:
                 print("     ", a, " ==> ", b)
         return 0
-    for (st, vs) in tasks[:: max(1, len(tasks) // 4)][:4]:
+    for (st, vs) in [t[:2] for t in tasks[:: max(1, len(tasks) // 4)][:4]]:
         rep.sample({"sql": sqlgen.render(st), "variants": [v[0] for v in vs[:6]], "n_variants": len(vs)})
     rep.coverage.update(
         evaluations=n_var,
@@ -312,7 +319,7 @@ def run(tier: str, opts: dict) -> int:
         statements_with_local_names=len(tasks),
         rule=f"generator cases around the centres {[(p[0], p[2]) for p in plan]} x all injective maps of their <= 3 local names (at most 1 quick / 2 thorough non-fresh names) into the pool "
         "{zq1..3, bare name of a qualified table read, bare name of the target, a column name in use, MixedCase, soft keyword} that keep the "
-        "statement unambiguous, + AS toggle, + alias added / removed per base table; non-trivial = variant that uses a non-fresh name or an alias toggle",
+        "statement unambiguous, + AS toggle, + alias added / removed per base table; everything once with the default configuration and once with DEFAULT_SCHEMA=ods; non-trivial = variant that uses a non-fresh name or an alias toggle",
         exhaustive=True,
         bound_completed={"plan (centre, deviations)": [(p[0], p[2]) for p in plan], "max_local_names": 3},
         rejected_by_parser=n_skip,
